@@ -240,6 +240,48 @@ def genargs(files):
     print(n, 'argument-swap mutants')
 
 
+def genflow(files):
+    """fifth operator family: control-flow edits — a plain condition negated (`if c {` -> `if !(c) {`), an early `return ..;` line
+    deleted, `else if` chains cut (`} else if c {` -> `} else if false {` is in gencond), a `match` arm guard dropped"""
+    os.makedirs(OUT, exist_ok=True)
+    have = {m['id'] for m in load('mutants.jsonl')}
+    n = 0
+    skip = ('debug_assert', 'tracing::', 'metrics', 'histogram!', 'counter!', 'trace!', 'debug!', 'panic!', 'assert!')
+    with open(os.path.join(OUT, 'mutants.jsonl'), 'a') as out:
+        def emit(rel, i, tag, old, new):
+            nonlocal n
+            mid = f'{rel}:{i+1}:{tag}'
+            if mid in have or new == old:
+                return
+            have.add(mid)
+            out.write(json.dumps(dict(id=mid, file=rel, line=i + 1, op=tag, old=old, new=new)) + '\n')
+            n += 1
+        for rel in files:
+            p = os.path.join(core.REPO, rel)
+            if not os.path.exists(p):
+                continue
+            src, end = production_lines(p)
+            for i in range(end):
+                l = src[i]
+                code = l.split('//')[0]
+                t = code.strip()
+                if not t or any(k in t for k in skip):
+                    continue
+                m = re.match(r'^(\s*(?:\} else )?if )(?!let\b)(.+)( \{)\s*$', code)
+                if m and ' let ' not in m.group(2) and not m.group(2).startswith('!') and '==' not in m.group(2) and '!=' not in m.group(2) \
+                        and '<' not in m.group(2) and '>' not in m.group(2) and '&&' not in m.group(2) and '||' not in m.group(2):
+                    emit(rel, i, 'ifneg', l, m.group(1) + '!(' + m.group(2) + ')' + m.group(3))
+                m = re.match(r'^(\s*while )(?!let\b)(.+)( \{)\s*$', code)
+                if m and ' let ' not in m.group(2) and '&&' not in m.group(2) and '||' not in m.group(2) and '<' not in m.group(2):
+                    emit(rel, i, 'whileneg', l, m.group(1) + '!(' + m.group(2) + ')' + m.group(3))
+                if re.match(r'^\s*return\b.*;\s*$', code):
+                    emit(rel, i, 'retdel', l, '')
+                m = re.match(r'^(\s*.+?)( if .+?)( => .*)$', code)
+                if m and '=>' in code and not code.strip().startswith('if '):
+                    emit(rel, i, 'armguard', l, m.group(1) + m.group(3))
+    print(n, 'control-flow mutants')
+
+
 ALL_RULES = None
 
 
@@ -453,6 +495,8 @@ if __name__ == '__main__':
     limit = int(a[a.index('--limit') + 1]) if '--limit' in a else 0
     if cmd == 'gen':
         gen([x for x in a[1:] if x.startswith('src/')] or FILES)
+    elif cmd == 'genflow':
+        genflow([x for x in a[1:] if x.startswith('src/')] or FILES)
     elif cmd == 'genargs':
         genargs([x for x in a[1:] if x.startswith('src/')] or FILES)
     elif cmd == 'gencond':
